@@ -81,6 +81,10 @@ def fault_atoms():
         [["on_disconnect_send", "zone_ctrl", "idem"], ["on_connect_send", "ac_ctrl", "idem"],
          ["fin"]],
         [["slow_conn", 3.0], ["fin"]],
+        # a subscriber that fails when it is called (not when it is awaited)
+        [["sync_raise", "msg"], ["status"]],
+        [["sync_raise", "conn"], ["fin"]],
+        [["sync_raise", "both"], ["rst"], ["status"]],
         # subscribers that return a Future / gather / Task / custom awaitable
         [["odd_subs"], ["fin"], ["status"]],
         [["odd_subs"], ["wfail", 1]],
